@@ -225,6 +225,29 @@ def rand_term(rng, depth=6, classic=False, labels=('A', 'B', 'C', 'ZERO', 'EMPTY
     return (k, rand_term(rng, depth - 1, classic, labels))
 
 
+def long_tail_terms(rng):
+    """documents in which MANY pending fragments follow a group on its line (long concat tails, deep closing brackets):
+    the engine's look-ahead has to scan far past the group"""
+    inner = ('group', ('cat', ('aaa', ('line',), 'bbb')))
+    n = rng.choice([5, 20, 33, 40, 64, 100])
+    kind = rng.randrange(5)
+    if kind == 0:
+        return ('cat', (inner,) + tuple(rng.choice(['.', 'x', ',', 'yy']) for _ in range(n)))
+    if kind == 1:
+        t = inner
+        for _ in range(n):
+            t = ('cat', ('(', t, ')'))
+        return t
+    if kind == 2:
+        t = inner
+        for i in range(n):
+            t = ('nest', 1, ('cat', ('[', t, ']'))) if i % 2 else ('group', ('cat', ('{', ('softline',), t, ('softline',), '}')))
+        return t
+    if kind == 3:
+        return ('cat', ('head ', ('nest', 4, ('cat', (('group', ('cat', ('k', ('line',), 'v'))),) + tuple('z' for _ in range(n)) + (('line',), 'tail')))))
+    return ('cat', tuple(('ann', 'A', ('group', ('cat', ('p', ('softline',), 'q')))) if i % 7 == 0 else 'w' for i in range(n)))
+
+
 def flat_width(t):
     """width of the term laid out flat (None if it contains a forced newline)"""
     if isinstance(t, str):
